@@ -77,6 +77,9 @@ SHAPES = {
     "raw_newtype": "struct r#fn({F}i32);",
     "unit_where": "struct S where u8: Copy;", "tuple0_where": "struct S() where u8: Copy;", "named0_where": "struct S where u8: Copy {{}}",
     "enum_empty_where": "enum S<T> where T: Clone {{}}",
+    "enum_disc64": "#[repr(u64)] enum S {{ {V}A = 18446744073709551615, B = 0xFFFF_FFFF_FFFF_FFFE, C = 9223372036854775808, D = 0o7, E = 0b1010_1010, F = 9223372036854775807u64 }}",
+    "enum_disc128": "#[repr(i128)] enum S {{ {V}A = -170141183460469231731687303715884105728, B = 170141183460469231731687303715884105727, C = 0, D = 340282366920938463463374607431768211455 }}",
+    "enum_disc_exprs": "#[repr(u8)] enum S {{ {V}A = b'a', B = 1 << 7, C = {{ 1 + 2 }}, D = !0 as u8 >> 1, E = u8::MAX - 1, F = (7), G = -1i8 as u8, H = LEN as u8, I = if true {{ 5 }} else {{ 6 }} }}",
     "array_const": "struct S<T>({F}[T; LEN], {G}[u8; core::mem::size_of::<u64>()], Wrap<{{ LEN + 1 }}>);",
 }
 
